@@ -32,11 +32,12 @@ def main(argv=None):
                      'there); family readcur (readCurrent on COMMITTED objects with a second connection committing in '
                      'between, savepoints and rollbacks: ConflictError / ReadConflictError / success decided by the '
                      'oracle; a declaration is never withdrawn by a rollback) is judged by its own oracle alone',
-                     'open finding C12:savepoint-created-object-ghostified-on-abort (an object created in a savepoint and '
-                     'modified later loses its state on abort / rollback to an earlier savepoint; the residual of the '
-                     'repaired C11:stored-new-object-ghostified-on-abort family): reported under exactly that signature '
-                     '(saved in a savepoint, modified since the last one, then un-added without state), hit by corpus '
-                     'case 13 on every run; only the first occurrence is shrunk; the case is judged up to it',
+                     'finding C12:savepoint-created-object-ghostified-on-abort (an object created in a savepoint and modified '
+                     'later lost its state on abort / rollback to an earlier savepoint) is fixed in /repo; the model is '
+                     'of the repaired _abort; the signature stays as a regression (saved in a savepoint, modified since '
+                     'the last one, then un-added without state; corpus case 13); with a tiny cache the cache GC inside '
+                     'savepoint() ghostifies saved NEW objects, un-adding such a ghost loses its state by a different '
+                     'mechanism: tolerated, like un-adding after cacheMinimize',
                      'the blob family is judged by the oracle alone (bytes per blob; savepoint = copy, rollback = '
                      'restore); the blob FILES of the storage are the subject of C13',
                      'objects that reload themselves on invalidation (persistent classes, self-activating objects) '
